@@ -12,8 +12,8 @@ var propC17 = &simProp{
 	ID: "C17",
 	Profile: sim.Profile{
 		Name: "C17", Voters: [2]int{1, 5}, NonVoters: [2]int{0, 2}, Phases: [2]int{2, 6},
-		Patterns: []string{"P2", "P2", "P9", "P9", "P13", "P13", "P13", "reads", "reads", "reads", "free", "free", "P1", "P3", "P4", "stopstart", "P11"},
-		Writes:   true, LeaseReads: true, Crashes: true, Stops: true, EpilogueET: 6, Prologue: true, FSMDelays: true, BoundedNet: true,
+		Patterns: []string{"P2", "P2", "P9", "P9", "P13", "P13", "P13", "P10", "P10", "P21", "P21", "reads", "reads", "reads", "free", "free", "P1", "P3", "P4", "stopstart", "P11"},
+		Writes:   true, LeaseReads: true, Crashes: true, Stops: true, EpilogueET: 6, Prologue: true, FSMDelays: true, Membership: true, BoundedNet: true,
 		Timeouts: []int{100, 500, 1000},
 		// (ET ms, LD ms, max one-way delay us) with LD + delay < ET
 		Combos: [][3]int{{300, 100, 400}, {300, 100, 20000}, {300, 100, 100000}, {300, 100, 190000}, {300, 250, 400}, {300, 250, 40000}, {150, 50, 400}, {150, 50, 90000}, {300, 50, 200000}},
